@@ -55,8 +55,9 @@ Definition pos_of (p : list batch) (ln lh : N) : Prop :=
   | None => HP ln lh /\ first_pos ln
   end.
 
-Hypothesis H_rj : forall p ln lh f,
-  W p -> pos_of p ln lh -> BP f -> b_num f = ln + 1 -> b_parent f <> 0 -> lh <> b_parent f -> RJ p.
+Hypothesis H_rj : forall p ln lh ps segs f,
+  W p -> pos_of p ln lh -> G (RGet ps) (RSegs segs) -> In f (concat (map seg_blocks segs)) ->
+  b_num f = ln + 1 -> b_parent f <> 0 -> lh <> b_parent f -> RJ p.
 
 Inductive unw : list batch -> Prop :=
 | unw_refl : unw g0
@@ -452,7 +453,7 @@ Proof.
     + apply (W_extend p ln lh delta _ tn); assumption.
   - destruct L as (f & Hin & Hf1 & Hf2 & Hf3).
     assert (Hbf : BP f) by (rewrite Forall_forall in Hbp; apply Hbp; exact Hin).
-    pose proof (H_rj p ln lh f Hw Hpos Hbf Hf1 Hf2 Hf3) as Hrj.
+    pose proof (H_rj p ln lh _ segs f Hw Hpos Hg Hin Hf1 Hf2 Hf3) as Hrj.
     destruct (rev p) as [|b q] eqn:Er.
     + apply (f_equal (@rev _)) in Er. rewrite rev_involutive in Er. cbn in Er. subst p.
       apply S_unwind_empty; assumption.
